@@ -195,7 +195,8 @@ CATALOGUE['C11'] += [
   (S, None, _IO, "                outf.TSTEP = int(\n                    (datetime.datetime(1900, 1, 1, 0) +\n                     dt[0]).strftime('%H%M%S'))", "                secs = int(dt[0].total_seconds())\n                outf.TSTEP = secs // 3600 * 10000 + secs % 3600 // 60 * 100 + secs % 60"),
 ]
 CATALOGUE['C13'] += [
-  (F, 'R-RECPOS', 'camxfiles/uamiv/Read.py', "nid = ntime // self.__spcrecords(self.nspec + 1)", "nid = ntime // self.nspec"),
+  (F, 'R-RECPOS', 'camxfiles/uamiv/Read.py', "        nid = ntime // self.nspec // self.nlayers", "        nid = ntime // self.nspec"),
+  (S, None, 'camxfiles/uamiv/Read.py', "        nid = ntime // self.nspec // self.nlayers", "        nid = ntime // (self.nspec * self.nlayers)"),
 ]
 CATALOGUE['C15'] += [
   (F, 'R-ASKED', '_getreader.py', "            if ext in rdict:\n                _myreaders.insert(0, (ext, rdict[ext]))", "            if ext in rdict:\n                if getattr(rdict[ext], 'isMine', False):\n                    return rdict[ext]"),
@@ -239,6 +240,18 @@ CATALOGUE['C13'] += [
   (F, 'R-WINDSCAN', 'camxfiles/wind/Read.py', "                for i in range(self.nlayers * 2 + 1):", "                for i in range(self.nlayers * 2):"),
   (S, None, 'camxfiles/wind/Read.py', "                for i in range(self.nlayers * 2 + 1):", "                for i in range(1 + 2 * self.nlayers):"),
   (F, 'R-SELPARAM', 'camxfiles/height_pressure/Read.py', "        self.seek(date, time, k, hp)\n        return self.read_into(dest)", "        self.seek(date, time, k)\n        return self.read_into(dest)"),
+]
+
+CATALOGUE['C08'] += [
+  (F, 'R-CENTURY', 'ArrayTransforms.py', "    date += where(date < 70000, 2000000, 1900000).astype(date.dtype)\n", "    if (date < 70000).any():\n        date += 2000000\n    else:\n        date += 1900000\n"),
+  (S, None, 'ArrayTransforms.py', "    date += where(date < 70000, 2000000, 1900000).astype(date.dtype)\n", "    date[date < 70000] += 100000\n    date += 1900000\n"),
+]
+
+CATALOGUE['C13'] += [
+  (F, 'R-EODUNIT', 'camxfiles/uamiv/Read.py', "            timediff((self.start_date, self.start_time), (d, t), 24) /", "            timediff((self.start_date, self.start_time), (d, t)) /"),
+  (S, None, 'camxfiles/uamiv/Read.py', "            timediff((self.start_date, self.start_time), (d, t), 24) /", "            timediff((self.start_date, self.start_time), (d, t), eod=24.0) /"),
+  (F, 'R-WINDCOUNT', 'camxfiles/wind/Memmap.py', "        step_size = (self.__time_hdr_fmts_size + 8 + record * 2 * lays +\n                     self.__dummy_length * 4)", "        step_size = (self.__time_hdr_fmts_size + 8 + record * 2 * lays)"),
+  (S, None, 'camxfiles/wind/Memmap.py', "        step_size = (self.__time_hdr_fmts_size + 8 + record * 2 * lays +\n                     self.__dummy_length * 4)", "        step_size = (4 * self.__dummy_length + 2 * lays * record +\n                     8 + self.__time_hdr_fmts_size)"),
 ]
 
 
